@@ -536,6 +536,9 @@ def run(m, tier):
     results.append(order_rules.remove_priority_rule(m, "C09.R10"))
     results.append(order_rules.shared_state_rule(m, "C09.R11"))
     results.append(r12_wipe_owner(m))
+    results.append(order_rules.memo_purity_rule(m, "C09.R13", ("fparser.two", "fparser.common.readfortran", "fparser.common.splitline", "fparser.common.sourceinfo"),
+                                               ("parsing", "what a parser created for one standard computes must not be remembered for the next"), 600,
+                                               state_attrs=("subclasses", "_symbol_tables"), state_names=("SYMBOL_TABLES",)))
     expl = ("Decides the structural clauses of C09: (R1) scope typestate -- in the generic block engine, specialised for each "
             "of its call sites, and in every other function that enters a symbol-table scope, the scope is left on every normal "
             "and exceptional exit (exception edges from explicit-raise summaries over the resolved call graph, for the exception "
